@@ -11,7 +11,7 @@ from __future__ import annotations
 import ast
 
 from mlmverif import cfg as cfgm
-from mlmverif.core import (AnalysisError, Ctx, FuncInfo, is_self_attr, kwarg,
+from mlmverif.core import (parent_map, AnalysisError, Ctx, FuncInfo, is_self_attr, kwarg,
                            unparse, walk_no_nested)
 from mlmverif.locks import LockEngine, ls_has
 
@@ -41,7 +41,7 @@ ORCH = 'chainables.orchestrate'
 
 
 def run(ctx: Ctx):
-  for r in (r1, r2, r3, r4, r5, r6, r7, r8, r9, r11, r12, r13, r14):
+  for r in (r1, r2, r3, r4, r5, r6, r7, r8, r9, r11, r12, r13, r14, r15, r16):
     ctx.guard(r)
   from mlmverif.props import c06
   ctx.include('R-C20-10', '"liveness is a function only of the last recorded heartbeat": the'
@@ -1320,12 +1320,89 @@ def r11(ctx: Ctx):
   ctx.floor(rule, 1, n)
 
 
+def r15(ctx: Ctx):
+  rule = 'R-C20-15'
+  ctx.rule(rule, '"a worker that was declared dead is never reported alive again": asking a worker to shut down IS declaring it'
+           ' dead — CourierClient.shutdown() stores the dead marker itself, on every path to its return (a call of the'
+           ' registry\'s unregister in its own body, CFG must-pass). Deferring the marker to a completion callback of the'
+           ' shutdown request, or making it conditional on the request\'s success, leaves a worker that is going away (or'
+           ' already gone: the request of a dead server never completes successfully) reported alive on the strength of'
+           ' its last heartbeat, and pools keep handing work to it')
+  repo = ctx.repo
+  ci = repo.cls(CU, 'CourierClient')
+  fi = ci.methods.get('shutdown')
+  if fi is None:
+    raise AnalysisError('CourierClient.shutdown not found')
+  g = cfgm.cfg_of(fi.node)
+  unreg = lambda nd: any(isinstance(x, ast.Call) and isinstance(x.func, ast.Attribute) and x.func.attr == 'unregister'
+                         for x in cfgm.node_exprs(nd))
+  w = g.must_pass(g.entry, [g.exit_ret], unreg, cfgm.only_normal)
+  what = 'CourierClient.shutdown: the dead marker is stored on every path to the return'
+  if w is None and any(unreg(nd) for nd in g.nodes):
+    ctx.ok(rule, fi, what, fi.node)
+  else:
+    ctx.fail(rule, fi, what,
+             'CourierClient.shutdown can return without having called the registry\'s unregister itself (a deferred or'
+             ' conditional marker): until the callback runs — never, when the request fails or is cancelled — the worker'
+             ' is still reported alive from its last heartbeat', node=fi.node, witness=w)
+  ctx.floor(rule, 1, 1)
+
+
+def r16(ctx: Ctx):
+  rule = 'R-C20-16'
+  ctx.rule(rule, '"when a pool-level operation returns or raises, none of its workers remains acquired": taking a worker is never'
+           ' a FILTER. In the pool / orchestration code a `w.acquire_by(pool)` call (a) is not evaluated in the condition of'
+           ' a comprehension, and (b) is the LAST operand of an `and` chain — everything tested after a successful'
+           ' acquisition (capacity, liveness) can fail and leaves the worker acquired although the expression is false and'
+           ' nobody holds a reference to release it. (Statement-level `if w.acquire_by(pool):` with a release on the'
+           ' unfit path is the form R-C20-3 checks.)')
+  repo = ctx.repo
+  n = 0
+  for fi in repo.all_functions():
+    if not fi.module.name.endswith(('courier_worker', 'orchestrate')):
+      continue
+    pm = None
+    for c in ast.walk(fi.node):
+      if not (isinstance(c, ast.Call) and isinstance(c.func, ast.Attribute) and c.func.attr == 'acquire_by'):
+        continue
+      n += 1
+      if pm is None:
+        pm = parent_map(fi.node)
+      bad = None
+      q, child = pm.get(c), c
+      while q is not None and not isinstance(q, (ast.stmt,)):
+        if isinstance(q, ast.BoolOp) and isinstance(q.op, ast.And) and child is not q.values[-1]:
+          bad = f'`{unparse(q)[:80]}` tests further conditions AFTER the acquisition'
+        if isinstance(q, ast.comprehension) and any(child is t or any(y is c for y in ast.walk(t)) for t in q.ifs):
+          bad = bad or f'the acquisition is the filter of a comprehension (`{unparse(q)[:70]}`)'
+        child, q = q, pm.get(q)
+      what = f'{fi.qualname}: `{unparse(c)[:50]}` is the last test of its condition'
+      if bad:
+        ctx.fail(rule, fi, what,
+                 bad + f' in {fi.qualname}: a worker that is acquired and then found busy or dead stays acquired by this pool —'
+                 ' it is in no result list, so no pool-level operation ever releases it', node=c)
+      else:
+        ctx.ok(rule, fi, what, c)
+  ctx.floor(rule, 3, n)
+
+
 from mlmverif.selfcheck import B, OK  # noqa: E402
 
 _U = 'utils/courier_utils.py'
 _W = 'chainables/courier_worker.py'
 _O = 'chainables/orchestrate.py'
 VARIANTS = [
+    B('dead-marker-deferred-to-the-shutdown-callback', 'utils/courier_utils.py',
+      "    self._pendings = []\n    _worker_registry.unregister(self.address)\n    return self.state",
+      "    self._pendings = []\n    self.state.add_done_callback(lambda f: (not f.cancelled() and f.exception() is None) and _worker_registry.unregister(self.address))\n    return self.state", 'R-C20-15'),
+    OK('dead-marker-stored-first', 'utils/courier_utils.py',
+       "    self.state = self._client.futures.shutdown()\n    for p in self._pendings:\n      p.state.cancel()\n    self._pendings = []\n    _worker_registry.unregister(self.address)\n    return self.state",
+       "    _worker_registry.unregister(self.address)\n    self.state = self._client.futures.shutdown()\n    for p in self._pendings:\n      p.state.cancel()\n    self._pendings = []\n    return self.state"),
+    B('idle-workers-acquires-as-a-filter', 'chainables/courier_worker.py',
+      "        if worker.is_available(self) and worker.has_capacity and worker.is_alive\n    ]",
+      "        if worker.acquire_by(self) and worker.has_capacity and worker.is_alive\n    ]", 'R-C20-16'),
+    B('acquire-all-tests-liveness-after-taking', 'chainables/courier_worker.py',
+      "      elif worker.is_available(self) and worker.acquire_by(self):", "      elif worker.acquire_by(self) and worker.is_alive:", 'R-C20-16'),
     B('revert-run-releases-without-naming-the-pool', _W,
       '      result = worker.submit(task).result()\n    finally:\n      worker.release(self)\n    return result',
       '      result = worker.submit(task).result()\n    finally:\n      worker.release()\n    return result', 'R-C20-12'),
